@@ -5,30 +5,31 @@
    Jumps by break / continue / return run through the enclosing finally bodies; an explicit
    raise goes to a handler of an enclosing try.  OEscaped = the exception left a try that has
    a finally clause: the property makes no claim beyond the raise node, and neither do we.
-   Guard: no break / continue / return in an except body of a try that has a finally clause
-   (known finding cfg-jump-in-handler-of-try-finally, see cfg_handler_jump_refuted.v). *)
+   No guard: jumps written in an except body of a try statement that has a finally clause run
+   through that finally body too (this was the defect cfg-jump-in-handler-of-try-finally, repaired
+   in /repo; see cfg_handler_jump_regression.v). *)
 From Coq Require Import List Arith Bool.
 Import ListNotations.
 Require Import MV.Cfg.Skel MV.Cfg.SkelProofs.
 
 Theorem cfg_contains_executions : forall (n : nat) (f : fn) (d : decisions) tr o d',
   exec_fn n f d = (tr, o, d') -> o <> OFuel ->
-  top_ok f = true -> guard_block (f_body f) = true ->
+  top_ok f = true ->
   exists r, tr = f_args f :: r /\ chain (cfg_fn f) (f_args f) r /\
     match o with
     | ONormal | ORet | ORaised => In (lastd (f_args f) r, EXIT) (cfg_fn f)
     | OEscaped => True
     | _ => False
     end.
-Proof. exact exec_fn_is_path. Qed.
+Proof. exact exec_fn_is_path_unguarded. Qed.
 
 (* non-vacuity: a loop with a try/finally whose body breaks, continues and returns *)
 Definition ex_f : fn :=
   mkfn 1 (BCons (SLoop 2 (BCons (STry (SIf 3 (BCons (SBreak 4) BNil) (BCons (SIf 5 (BCons (SContinue 6) BNil) (BCons (SReturn 7) BNil)) BNil))
                                    BNil (HCons (BCons (SSimple 8) BNil) HNil) BNil (BCons (SSimple 9) BNil)) BNil) BNil)
          (BCons (SSimple 10) BNil)).
-Example ex_guard : top_ok ex_f = true /\ guard_block (f_body ex_f) = true.
-Proof. vm_compute; split; reflexivity. Qed.
+Example ex_guard : top_ok ex_f = true.
+Proof. vm_compute; reflexivity. Qed.
 Example ex_run : exec_fn 50 ex_f [1; 0; 1; 1; 1] = ([1; 2; 3; 5; 6; 9; 2; 3; 4; 9; 10], ONormal, []).
 Proof. vm_compute; reflexivity. Qed.
 Print Assumptions cfg_contains_executions.
